@@ -125,6 +125,26 @@ static void build_const(const ref::Value& v, N& out, A& al, std::deque<std::stri
   }
 }
 
+// after ParseSchema the document must be an ordinary document: every container it holds (kept, updated in place or newly
+// built by the handler) is grown by three children through the mutation API, children first
+template <class N, class A>
+static void grow_all(N& n, ref::Value& m, A& al) {
+  if (n.IsObject()) {
+    for (size_t i = 0; i < m.o.size(); i++) grow_all((n.MemberBegin() + (long)i)->value, m.o[i].second, al);
+    for (int k = 0; k < 3; k++) {
+      std::string key = "zz~grow" + std::to_string(k);
+      n.AddMember(StringView(key.data(), key.size()), N((uint64_t)k), al, true);
+      m.o.emplace_back(key, ref::Value::mkU((uint64_t)k));
+    }
+  } else if (n.IsArray()) {
+    for (size_t i = 0; i < m.a.size(); i++) grow_all(n[i], m.a[i], al);
+    for (int k = 0; k < 3; k++) {
+      n.PushBack(N((uint64_t)k), al);
+      m.a.push_back(ref::Value::mkU((uint64_t)k));
+    }
+  }
+}
+
 template <class Doc>
 static void apply(const std::string& e, const std::vector<const std::string*>& ts, const ref::Value& E, const std::vector<const ref::Value*>& Ts,
                   const char* tag0, vr::Ctx& ctx, int emode = 0) {
@@ -188,6 +208,18 @@ static void apply(const std::string& e, const std::vector<const std::string*>& t
       ctx.violation("schema_dump", std::string("schema_dump_") + tag, desc, "Dump after ParseSchema is %s", dump.c_str());
       return;
     }
+  }
+  // continued use: grow every container of the result, then read everything back (for the map states of the existing
+  // document the growth would mostly re-test the mutation API under a map, which C12 does)
+  if (emode == 0 || emode == 3) {
+    grow_all(static_cast<typename Doc::NodeType&>(doc), cur, doc.GetAllocator());
+    std::string acc = sc::compare(doc, cur);
+    if (!acc.empty()) {
+      ctx.violation("schema_then_mutate", "schema_then_mutate_mismatch", desc, "[%s] after growing every container of the result by three children: %s", tag, acc.c_str());
+      return;
+    }
+    ref::Result rp = ref::parse(doc.Dump());
+    if (!rp.ok || !ref::identical(rp.v, cur)) ctx.violation("schema_then_mutate", "schema_then_mutate_dump", desc, "[%s] Dump after growing every container of the result differs from the model", tag);
   }
 }
 
@@ -281,10 +313,10 @@ int main(int argc, char** argv) {
 
   vr::Family f1, f2, f3, f4;
   f4.name = "SD_pairs_shape_depth2";
-  f4.count = (uint64_t)WD.size() * WD.size() * 4;
+  f4.count = (uint64_t)WD.size() * WD.size() * 3;
   f4.group = "SD";
   f4.chunk = 512;
-  f4.rule = "all pairs (E,T) over the " + std::to_string(WD.size()) + " duplicate-free values with <= 2 children per container and nesting depth <= 2 (leaves 1 and the empty object; thorough adds \"s\" and the empty array; keys a,b in both orders): reaches two-member objects nested in two-member objects on both sides; x 4 states of the existing document (as parsed / lookup maps on every object incl. empty ones / every object after AddMember+CreateMap+RemoveMember / built through the API with constant strings and keys, which must not be written to)";
+  f4.rule = "all pairs (E,T) over the " + std::to_string(WD.size()) + " duplicate-free values with <= 2 children per container and nesting depth <= 2 (leaves 1 and the empty object; thorough adds \"s\" and the empty array; keys a,b in both orders): reaches two-member objects nested in two-member objects on both sides; x 3 states of the existing document (as parsed / lookup maps on every object incl. empty ones / every object after AddMember+CreateMap+RemoveMember; the API-built constant-string state is in SP and SQ)";
   const size_t mr = std::min<size_t>(WD.size(), quick ? 36 : 60);
   vr::Family f5;
   f5.name = "SR_shape_repeated";
@@ -485,8 +517,8 @@ int main(int argc, char** argv) {
       ts = {&WT[ti]};
       Ts = {&VT[ti]};
     } else if (f.name[1] == 'D') {
-      emode = (int)(idx % 4);
-      idx /= 4;
+      emode = (int)(idx % 3);
+      idx /= 3;
       ei = idx / WD.size();
       size_t ti = idx % WD.size();
       if (HAVE_ASAN && emode != 0 && (ei >= 300 || ti >= 300)) {  // the ASan passes keep the map states to the 300 smallest shapes
